@@ -139,6 +139,11 @@ def arrive_chain(srv, uri, text, r, prefer=None):
         if r.random() < .4: prime(srv, uri, back[0][0], r)
         srv.change(uri, batch, 1)
         _arr("reached_by_batch_ending_in_full_text"); return True
+    if r.random() < .25:
+        # an earlier life of the same URI with MORE versions than the history that follows (versions start again with every didOpen)
+        srv.open(uri, text[len(text) // 3:])
+        for v in range(1, r.choice([3, 5, 8])): srv.change(uri, [{"text": text[:len(text) // 2] + " " * v}], v)
+        srv.close_doc(uri); _arr("with_an_earlier_life_of_higher_versions")
     srv.open(uri, back[0][0])
     if r.random() < .4: prime(srv, uri, back[0][0], r)
     if len(changes) > 1 and r.random() < .4: srv.change(uri, changes, 1)
@@ -149,11 +154,39 @@ def arrive_chain(srv, uri, text, r, prefer=None):
     _arr("reached_by_chain_of_%d" % len(changes)); return True
 
 
+def neighbour_text(text, r, kind, prev_text):
+    """a text for the neighbour document (see Session.open); falls back to the text itself"""
+    if kind == "previous": return prev_text if prev_text is not None else text
+    code = re.sub(r"//[^\n]*", lambda m: "/" * len(m.group()), text)          # comments blanked out, same indices
+    if kind == "same_length_name":
+        names = sorted(set(re.findall(r"(?<![\w'])[a-zA-Z_][A-Za-z0-9_]*(?![\w'])", code)) - {"proc", "type", "var", "if", "else", "while", "array", "of", "ref", "int", "main"})
+        if not names: return text
+        a = r.choice(names)
+        same = [n for n in names if len(n) == len(a) and n != a]
+        b = r.choice(same) if same and r.random() < .6 else a[:-1] + ("z" if a[-1] != "z" else "y")
+        occ = [m.start() for m in re.finditer(r"(?<![\w'])%s(?![\w'])" % re.escape(a), code)]
+        if not occ: return text
+        if r.random() < .5: occ = [r.choice(occ)]
+        out = text
+        for i in occ: out = out[:i] + b + out[i + len(a):]
+        return out
+    if kind == "same_length_layout":
+        nls = [i for i, c in enumerate(code) if c == "\n" and code[i - 1:i] != "\r" and code[i - 1:i] != "'" and code[max(0, code.rfind("\n", 0, i)):i].count("/") == 0]
+        sps = [i for i, c in enumerate(code) if c == " " and code[i - 1:i] != "'" and code[max(0, code.rfind("\n", 0, i)):i].count("/") == 0]
+        if not nls or not sps: return text
+        out = list(text)
+        for _ in range(r.choice([1, 1, 2, 5])):
+            i = r.choice(nls); j = r.choice(sps)
+            if out[i] == "\n" and out[j] == " ": out[i] = " "; out[j] = "\n"
+        return "".join(out)
+    return text
+
+
 class Session:
     """one server process per worker; every document gets its own URI and is closed again"""
     def __init__(s, variant="rel", diagnostics=True):
         s.variant = variant; s.diagnostics = diagnostics; s.srv = None; s.n = 0; s.deaths = 0
-        s.via_edit = .33; s.arrived = 0; s.decoys_p = .2; s.decoy = {}; s.prev_text = None
+        s.via_edit = .33; s.arrived = 0; s.decoys_p = .3; s.decoy = {}; s.prev_text = None
 
     def server(s):
         if s.srv is None or not s.srv.alive():
@@ -161,27 +194,27 @@ class Session:
         return s.srv
 
     def open(s, text, tag="doc", prefer=None):
-        """opens the document, in a third of the cases by way of an edit (see `arrive`)"""
+        """opens the document, in part of the cases by way of an edit history (see `arrive`) and next to an open neighbour document"""
         s.n += 1
         uri = "file:///verif/%s%d.spl" % (tag, s.n)
         srv = s.server(); srv.drop_notes()
-        if arrive(srv, uri, text, s.n, s.via_edit, prefer): s.arrived += 1
         r = random.Random("decoy/%d/%d" % (len(text), s.n))
+        kind = None
         if s.decoys_p and r.random() < s.decoys_p:
-            # a second document stays open next to the one under test and is asked about right before it: the same text, a text of the
-            # same length with one name exchanged, or the previous document of this session. Whatever the server keeps from answering
-            # for the neighbour (documents never influence each other) must not show in the answers for this one.
+            # A second document is open next to the one under test: the same text, a text of the SAME LENGTH (one name exchanged for
+            # another of equal length; a line break and a blank exchanged, so that no token moves but the lines do), the previous
+            # document of this session, or a twin that was opened with this very text and then edited. Every request of the check is
+            # sent for the neighbour first, at the same position (answer discarded). Documents never influence each other: whatever
+            # the server keeps from answering for the neighbour must not show in the answers for this one.
             d = uri + ".decoy"
-            kind = r.choice(["same_text", "same_length", "same_length", "previous"])
-            dt = text
-            if kind == "same_length":
-                names = sorted(set(re.findall(r"(?<![\w'])[a-z][A-Za-z0-9_]{1,}(?![\w'])", re.sub(r"//[^\n]*", "", text))) - {"proc", "type", "var", "if", "else", "while", "array", "of", "ref", "int", "main"})
-                if names:
-                    a = r.choice(names); b = a[:-1] + ("z" if a[-1] != "z" else "y")
-                    dt = re.sub(r"(?<![\w'])%s(?![\w'])" % re.escape(a), b, text, count=r.choice([1, 0]))
-            elif kind == "previous" and s.prev_text is not None: dt = s.prev_text
-            srv.open(d, dt); prime(srv, d, dt, r); s.decoy[uri] = d
-            _arr("with_an_open_neighbour_" + kind)
+            kind = r.choice(["same_text", "same_length_name", "same_length_name", "same_length_layout", "same_length_layout", "previous", "edited_twin"])
+            dt = neighbour_text(text, r, "same_length_name" if kind == "edited_twin" else kind, s.prev_text)
+            if kind == "edited_twin":
+                srv.open(d, text); prime(srv, d, text, r); srv.change(d, [{"text": dt}], 1)
+        if arrive(srv, uri, text, s.n, s.via_edit, prefer): s.arrived += 1
+        if kind is not None:
+            if kind != "edited_twin": srv.open(d, dt)
+            s.decoy[uri] = d; _arr("with_an_open_neighbour_" + kind)
         s.prev_text = text
         return uri
 
@@ -191,6 +224,10 @@ class Session:
             if uri in s.decoy: s.srv.close_doc(s.decoy.pop(uri))
 
     def req(s, method, params, timeout=20):
+        u = (params.get("textDocument") or {}).get("uri") if isinstance(params, dict) else None
+        if u in s.decoy:
+            q = dict(params, textDocument={"uri": s.decoy[u]})          # the neighbour is asked first, at the same position
+            s.server().request(method, q, timeout)
         return s.server().request(method, params, timeout)
 
     def result(s, method, params):
